@@ -1129,43 +1129,73 @@ theorem encoder_cached_exact (ops : List EOp) :
 /-- **Defragmentation does not change the abstract state** (repaired coalescing, `fixDefrag`): the
     entries — owners, position, and the data found at the entry's location — before and after `defrag`
     are the same up to order, for every cache.  (False for the pinned coalescing: `F14_defrag_swaps_rows`.) -/
-theorem defrag_abs_perm (c : Cache) (hlen : c.cells.length = c.rows.length)
+theorem defrag_abs_perm_layers (c : Cache) (hlen : c.cells.length = c.rows.length)
     (hfix : c.v.fixDefrag = true) (hl : c.hasLayers = true) : (abs (defrag c)).Perm (abs c) := by
   have h := (defragCore_perm c.cells c.rows hlen).2.2
   unfold defrag abs
   simp only [hfix, hl, if_true]
   exact h
 
-theorem slide_v (c : Cache) (b : List Tok) : (slide c b).v = c.v ∧ (slide c b).hasLayers = c.hasLayers := by
+/-- before the first `Put` the row array is untouched (`Init` zeroes it; only `Put`, defrag's block copies
+    and `shift` write rows, and the last two do nothing without layer tensors) -/
+def RowsFresh (c : Cache) : Prop := c.hasLayers = false → ∀ r ∈ c.rows, r = default
+
+theorem rowsFresh_of (c c' : Cache) (h : RowsFresh c) (h1 : c'.hasLayers = c.hasLayers)
+    (h2 : c.hasLayers = false → c'.rows = c.rows) : RowsFresh c' := by
+  intro hl r hr
+  rw [h1] at hl
+  rw [h2 hl] at hr
+  exact h hl r hr
+
+/-- **Defragmentation does not change the abstract state**, also before the first `Put` (no layer tensors:
+    the real code moves no data and every row is still zero) -/
+theorem defrag_abs_perm (c : Cache) (hlen : c.cells.length = c.rows.length)
+    (hfix : c.v.fixDefrag = true) (hr : RowsFresh c) : (abs (defrag c)).Perm (abs c) := by
+  cases hl : c.hasLayers with
+  | true => exact defrag_abs_perm_layers c hlen hfix hl
+  | false =>
+    have hd := hr hl
+    obtain ⟨h1, h2, hp⟩ := defragCore_perm c.cells c.rows hlen
+    have hsame : (defragCore true c.cells c.rows).2 = c.rows :=
+      eq_of_all_default _ _ h2 (fun x hx => hd x (defragCore_rows_sub true _ _ x hx)) hd
+    unfold defrag abs
+    simp only [hfix, hl, Bool.false_eq_true, if_false]
+    rw [hsame] at hp
+    exact hp
+
+theorem slide_v (c : Cache) (b : List Tok) :
+    (slide c b).v = c.v ∧ (slide c b).hasLayers = c.hasLayers ∧ (slide c b).rows = c.rows := by
   unfold slide
   cases c.window with
-  | none => exact ⟨rfl, rfl⟩
+  | none => exact ⟨rfl, rfl, rfl⟩
   | some w =>
     simp only
     generalize batchSeqs b = seqs
     induction seqs generalizing c with
-    | nil => exact ⟨rfl, rfl⟩
+    | nil => exact ⟨rfl, rfl, rfl⟩
     | cons seq rest ih =>
       simp only [List.foldl_cons]
       cases lowest b seq with
       | none => exact ih c
       | some low =>
         have := ih (slideSeq c w seq low)
-        have e : (slideSeq c w seq low).v = c.v ∧ (slideSeq c w seq low).hasLayers = c.hasLayers := by
-          unfold slideSeq; cases c.ranges seq <;> exact ⟨rfl, rfl⟩
-        exact ⟨this.1.trans e.1, this.2.trans e.2⟩
+        have e : (slideSeq c w seq low).v = c.v ∧ (slideSeq c w seq low).hasLayers = c.hasLayers ∧
+            (slideSeq c w seq low).rows = c.rows := by
+          unfold slideSeq; cases c.ranges seq <;> exact ⟨rfl, rfl, rfl⟩
+        exact ⟨this.1.trans e.1, this.2.1.trans e.2.1, this.2.2.trans e.2.2⟩
 
 /-- the abstract state placement starts from is the abstract state after window eviction, also when
     the pass had to defragment -/
 theorem placeBase_abs_perm (c : Cache) (b : List Tok) (h : Inv c) (hfix : c.v.fixDefrag = true)
-    (hl : c.hasLayers = true) :
+    (hr : RowsFresh c) :
     (abs (placeBase c b)).Perm (abs (slide { c with curBatch := b, except := [] } b)) := by
   have h1 : Inv (slide { c with curBatch := b, except := [] } b) := slide_inv _ b ⟨h.len, h.cover, h.rmax, h.pad, h.size⟩
   unfold placeBase
   split
   · exact List.Perm.refl _
   · have hv := slide_v { c with curBatch := b, except := [] } b
-    exact defrag_abs_perm _ h1.len (by rw [hv.1]; exact hfix) (by rw [hv.2]; exact hl)
+    exact defrag_abs_perm _ h1.len (by rw [hv.1]; exact hfix)
+      (rowsFresh_of { c with curBatch := b, except := [] } _ hr hv.2.1 (fun _ => hv.2.2))
 
 theorem startForward_window (c : Cache) (b : List Tok) : (startForward c b).1.window = c.window := by
   have hs := slide_window { c with curBatch := b, except := [] } b
@@ -1186,17 +1216,17 @@ theorem startForward_window (c : Cache) (b : List Tok) : (startForward c b).1.wi
     exactly what the location-free spec says about the state *before* the pass with the batch stored
     on top.  Neither the window eviction nor the defragmentation of the pass is visible.  With
     `copyPrefix_abs`, `remove_abs`, `setCausal_abs` and `inv_run` this is the refinement to the spec for
-    every history.  `hasLayers`: some `Put` has happened (before the first `Put` there is no data to
-    move and the model leaves the rows alone). -/
+    every history.  `RowsFresh`: before the first `Put` all rows are still zero (holds along every
+    history: `rowsFresh_run`). -/
 theorem forward_exposes_stored_history_defrag (c : Cache) (b : List Tok) (ids : List Nat) (h : Inv c)
-    (hids : ids.length = b.length) (hfix : c.v.fixDefrag = true) (hl : c.hasLayers = true)
+    (hids : ids.length = b.length) (hfix : c.v.fixDefrag = true) (hr : RowsFresh c)
     (hok : (startForward c b).2 = .ok) (t : Tok) (ht : t ∈ b) :
     ((exposedEntries (put (startForward c b).1 ids) t).map key).Perm
       ((visible c.window (KV.store (abs c) (b.zip ids)) t.seq t.pos).map key) := by
   have hw : (put (startForward c b).1 ids).window = c.window := startForward_window c b
   rw [mask_exact c b ids h hok t ht, hw]
   have hperm := (startForward_put_abs_perm c b ids h hids hok).trans
-    (List.Perm.append_right _ (placeBase_abs_perm c b h hfix hl))
+    (List.Perm.append_right _ (placeBase_abs_perm c b h hfix hr))
   have h1 := (hperm.filter (vis c.window t.seq t.pos)).map key
   refine h1.trans ?_
   have hs : abs (slide { c with curBatch := b, except := [] } b) = match c.window with
@@ -1260,25 +1290,318 @@ theorem run_v (c : Cache) (ops : List HOp) : (ops.foldl stepH c).v = c.v := by
   | nil => rfl
   | cons op rest ih => simp only [List.foldl_cons]; rw [ih, stepH_v]
 
+theorem finishForward_rowsFresh (c : Cache) (loc : Nat) (b : List Tok) (h : RowsFresh c) :
+    RowsFresh (finishForward c loc b) := by
+  have hp := place_cells { c with curLoc := loc, curRange := Range.new } loc b
+  apply rowsFresh_of c _ h
+  · simp [finishForward, hp.2.2.2.1]
+  · intro _; simp [finishForward, hp.2.1]
+
+theorem defrag_rowsFresh (c : Cache) (h : RowsFresh c) : RowsFresh (defrag c) := by
+  apply rowsFresh_of c _ h
+  · rfl
+  · intro hl; simp [defrag, hl]
+
+theorem startForward_rowsFresh (c : Cache) (b : List Tok) (h : RowsFresh c) : RowsFresh (startForward c b).1 := by
+  have hv := slide_v { c with curBatch := b, except := [] } b
+  have h1 : RowsFresh (slide { c with curBatch := b, except := [] } b) :=
+    rowsFresh_of { c with curBatch := b, except := [] } _ h hv.2.1 (fun _ => hv.2.2)
+  unfold startForward
+  simp only
+  split
+  · exact finishForward_rowsFresh _ _ _ h1
+  · split
+    · exact h1
+    · split
+      · exact finishForward_rowsFresh _ _ _ (defrag_rowsFresh _ h1)
+      · exact defrag_rowsFresh _ h1
+
+theorem stepH_rowsFresh (c : Cache) (op : HOp) (h : RowsFresh c) : RowsFresh (stepH c op) := by
+  cases op with
+  | fwd b ids =>
+    simp only [stepH]
+    split
+    · intro hl; simp [put] at hl
+    · exact startForward_rowsFresh c b h
+  | cp src dst len => exact rowsFresh_of c _ h rfl (fun _ => rfl)
+  | rm seq b e =>
+    apply rowsFresh_of c _ h
+    · simp only [stepH, Causal.remove]
+      split
+      · rfl
+      · split
+        · rfl
+        · split
+          · rfl
+          · split <;> rfl
+    · intro hl
+      simp only [stepH, Causal.remove]
+      split
+      · rfl
+      · split
+        · rfl
+        · split
+          · rfl
+          · split
+            · rfl
+            · simp [hl]
+  | sc ex =>
+    simp only [stepH, setCausal]
+    split
+    · exact h
+    · exact h
+  | rsv b => exact h
+
+/-- **Rows stay zero until the first `Put`**, along every history -/
+theorem rowsFresh_run (c : Cache) (ops : List HOp) (h : RowsFresh c) : RowsFresh (ops.foldl stepH c) := by
+  induction ops generalizing c with
+  | nil => exact h
+  | cons op rest ih => exact ih _ (stepH_rowsFresh c op h)
+
+theorem rowsFresh_init (v : Variant) (w : Option Int) (maxSeq capacity maxBatch cachePad batchPad : Nat) (hs : Bool) :
+    RowsFresh (Causal.init v w maxSeq capacity maxBatch cachePad batchPad hs) := by
+  intro _ r hr
+  simp only [Causal.init] at hr
+  exact List.eq_of_mem_replicate hr
+
 /-- **Refinement for every history** (tree with the repaired coalescing): start from any initial
     configuration, run any history of forward passes (accepted or rejected), prefix copies, removals
     (accepted, refused, unsupported) and SetCausal calls; then any batch that `StartForward` accepts —
     by direct fit or after defragmenting — is shown exactly the entries the location-free spec derives
-    from the abstract state before the pass.  (`hasLayers`: the history contains an accepted pass.) -/
+    from the abstract state before the pass. -/
 theorem forward_exposes_all_histories (v : Variant) (hv : v.fixDefrag = true) (w : Option Int)
     (maxSeq capacity maxBatch cachePad batchPad : Nat) (hs : Bool) (ops : List HOp) (b : List Tok) (ids : List Nat)
     (hsz : (Causal.init v w maxSeq capacity maxBatch cachePad batchPad hs).cells.length ≤ maxInt)
     (hids : ids.length = b.length) :
     let c := ops.foldl stepH (Causal.init v w maxSeq capacity maxBatch cachePad batchPad hs)
-    c.hasLayers = true → (startForward c b).2 = .ok →
+    (startForward c b).2 = .ok →
     ∀ t ∈ b, ((exposedEntries (put (startForward c b).1 ids) t).map key).Perm
       ((visible c.window (KV.store (abs c) (b.zip ids)) t.seq t.pos).map key) := by
-  intro c hl hok t ht
+  intro c hok t ht
+  have hl : RowsFresh c := rowsFresh_run _ ops (rowsFresh_init v w maxSeq capacity maxBatch cachePad batchPad hs)
   have hinv := inv_run _ ops (inv_init v w maxSeq capacity maxBatch cachePad batchPad hs hsz)
   have hcv : c.v.fixDefrag = true := by
     have : c.v = v := (run_v _ ops).trans rfl
     rw [this]; exact hv
   exact forward_exposes_stored_history_defrag c b ids hinv hids hcv hl hok t ht
+
+/-! ### refinement to the location-free specification -/
+
+/-- the location-free meaning of one successful cache operation (`none`: the spec refuses a `Remove` that
+    would have to shift an entry another sequence still shares) -/
+def specStep (W : Option Int) (s : Spec) : HOp → Option Spec
+  | .fwd b ids => some (KV.store (match W with | none => s | some w => specSlide s w b) (b.zip ids))
+  | .cp src dst len => some (KV.copyPrefix s src dst len)
+  | .rm seq b e => KV.remove s seq b e
+  | .sc _ => some s
+  | .rsv _ => some s
+
+/-- the operation is accepted by the cache (a forward pass also needs one datum per token; a `Remove` is
+    only considered once layer tensors exist — before the first `Put` there is no data to re-shift) -/
+def Succeeds (c : Cache) : HOp → Prop
+  | .fwd b ids => (startForward c b).2 = .ok ∧ ids.length = b.length
+  | .rm seq b e => (Causal.remove c seq b e).2 = .ok ∧ c.hasLayers = true
+  | _ => True
+
+/-- **Refinement, one step**: every operation the cache accepts changes the abstract state exactly as the
+    location-free specification prescribes (up to the order of entries): a forward pass = window eviction
+    for the batch's sequences + one fresh entry per token; CopyPrefix; Remove (with the shift applied to the
+    data of exactly the moved entries); SetCausal and reserve passes change nothing.  Placement, cell reuse,
+    range bookkeeping and defragmentation are invisible. -/
+theorem refines_step (c : Cache) (op : HOp) (h : Inv c) (hfix : c.v.fixDefrag = true) (hr : RowsFresh c)
+    (hs : Succeeds c op) :
+    ∃ s', specStep c.window (abs c) op = some s' ∧ (abs (stepH c op)).Perm s' := by
+  cases op with
+  | fwd b ids =>
+    obtain ⟨hok, hids⟩ := hs
+    refine ⟨_, rfl, ?_⟩
+    simp only [stepH, hok, if_true]
+    have hperm := (startForward_put_abs_perm c b ids h hids hok).trans
+      (List.Perm.append_right _ (placeBase_abs_perm c b h hfix hr))
+    have hsl : abs (slide { c with curBatch := b, except := [] } b) = match c.window with
+        | none => abs c
+        | some w => specSlide (abs c) w b :=
+      slide_abs { c with curBatch := b, except := [] } b ⟨h.len, h.cover, h.rmax, h.pad, h.size⟩
+    simp only [KV.store] at hperm ⊢
+    rw [hsl] at hperm
+    exact hperm
+  | cp src dst len => exact ⟨_, rfl, by simp only [stepH]; rw [copyPrefix_abs]⟩
+  | rm seq b e =>
+    have := remove_abs c seq b e h.len h.size hs.2 hs.1
+    exact ⟨_, this, List.Perm.refl _⟩
+  | sc ex => exact ⟨_, rfl, by simp only [stepH]; rw [setCausal_abs]⟩
+  | rsv b => exact ⟨_, rfl, List.Perm.refl _⟩
+
+/-- **A rejected batch leaves the history alone**: after `ErrKvCacheFull` the abstract state is the one
+    before the pass minus the window eviction the pass had already performed (which is invisible to the
+    batch's sequences from their next position on) — nothing of the rejected batch is stored, no live
+    entry is lost or altered although the cache has been defragmented. -/
+theorem rejected_forward_abs (c : Cache) (b : List Tok) (h : Inv c) (hfix : c.v.fixDefrag = true)
+    (hr : RowsFresh c) (hfull : (startForward c b).2 = .full) :
+    (abs (startForward c b).1).Perm (match c.window with | none => abs c | some w => specSlide (abs c) w b) := by
+  have h1 : Inv (slide { c with curBatch := b, except := [] } b) := slide_inv _ b ⟨h.len, h.cover, h.rmax, h.pad, h.size⟩
+  have hv := slide_v { c with curBatch := b, except := [] } b
+  have hsl : abs (slide { c with curBatch := b, except := [] } b) = match c.window with
+      | none => abs c
+      | some w => specSlide (abs c) w b :=
+    slide_abs { c with curBatch := b, except := [] } b ⟨h.len, h.cover, h.rmax, h.pad, h.size⟩
+  rw [← hsl]
+  have hd := defrag_abs_perm _ h1.len (by rw [hv.1]; exact hfix)
+    (rowsFresh_of { c with curBatch := b, except := [] } _ hr hv.2.1 (fun _ => hv.2.2))
+  unfold startForward at hfull ⊢
+  simp only at hfull ⊢
+  split
+  · rename_i hf1; simp [hf1] at hfull
+  · rename_i hf1
+    simp only [hf1] at hfull
+    split
+    · rename_i hnp; simp [hnp] at hfull
+    · rename_i hnp
+      simp only [hnp] at hfull
+      split
+      · rename_i hf2; simp [hf2] at hfull
+      · exact hd
+
+theorem specSlide_perm (w : Int) (b : List Tok) (s s' : Spec) (hp : s.Perm s') :
+    (specSlide s w b).Perm (specSlide s' w b) := by
+  unfold specSlide
+  generalize batchSeqs b = seqs
+  induction seqs generalizing s s' with
+  | nil => exact hp
+  | cons seq rest ih =>
+    simp only [List.foldl_cons]
+    cases lowest b seq with
+    | none => exact ih s s' hp
+    | some low => exact ih _ _ (hp.filterMap _)
+
+/-- the specification does not depend on the order of the entries -/
+theorem specStep_perm (W : Option Int) (s s' : Spec) (op : HOp) (hp : s.Perm s') (t : Spec)
+    (h : specStep W s op = some t) : ∃ t', specStep W s' op = some t' ∧ t.Perm t' := by
+  cases op with
+  | fwd b ids =>
+    simp only [specStep, Option.some.injEq] at h
+    subst h
+    refine ⟨_, rfl, ?_⟩
+    simp only [KV.store]
+    apply List.Perm.append_right
+    cases W with
+    | none => exact hp
+    | some w => exact specSlide_perm w b s s' hp
+  | cp src dst len =>
+    simp only [specStep, Option.some.injEq] at h
+    subst h
+    exact ⟨_, rfl, hp.filterMap _⟩
+  | rm seq b e =>
+    simp only [specStep, KV.remove] at h ⊢
+    rw [← hp.any_eq]
+    split at h
+    · cases h
+    · rename_i hn
+      simp only [Option.some.injEq] at h
+      subst h
+      exact ⟨_, by simp [hn], hp.filterMap _⟩
+  | sc ex =>
+    simp only [specStep, Option.some.injEq] at h
+    subst h
+    exact ⟨_, rfl, hp⟩
+  | rsv b =>
+    simp only [specStep, Option.some.injEq] at h
+    subst h
+    exact ⟨_, rfl, hp⟩
+
+theorem stepH_window (c : Cache) (op : HOp) : (stepH c op).window = c.window := by
+  cases op with
+  | fwd b ids =>
+    simp only [stepH]
+    split
+    · exact startForward_window c b
+    · exact startForward_window c b
+  | cp src dst len => rfl
+  | rm seq b e =>
+    simp only [stepH, Causal.remove]
+    split
+    · rfl
+    · split
+      · rfl
+      · split
+        · rfl
+        · split <;> rfl
+  | sc ex =>
+    simp only [stepH, setCausal]
+    split <;> rfl
+  | rsv b => rfl
+
+/-- the specification run over a history (`none` as soon as the spec refuses a step) -/
+def runSpec (W : Option Int) : Spec → List HOp → Option Spec
+  | s, [] => some s
+  | s, op :: ops => (specStep W s op).bind (fun s' => runSpec W s' ops)
+
+/-- every operation of the history is accepted by the cache (in the state it is issued in) -/
+def AllSucceed : Cache → List HOp → Prop
+  | _, [] => True
+  | c, op :: ops => Succeeds c op ∧ AllSucceed (stepH c op) ops
+
+/-- **Refinement along a history**: if the abstract state is (a permutation of) `s`, then after any
+    history of accepted operations the abstract state is (a permutation of) what the location-free
+    specification computes from `s` — and the specification accepts every step. -/
+theorem refines_run (c : Cache) (ops : List HOp) (s : Spec) (hp : (abs c).Perm s) (h : Inv c)
+    (hfix : c.v.fixDefrag = true) (hr : RowsFresh c) (hs : AllSucceed c ops) :
+    ∃ s', runSpec c.window s ops = some s' ∧ (abs (ops.foldl stepH c)).Perm s' := by
+  induction ops generalizing c s with
+  | nil => exact ⟨s, rfl, hp⟩
+  | cons op rest ih =>
+    obtain ⟨hs1, hs2⟩ := hs
+    obtain ⟨s1, he1, hp1⟩ := refines_step c op h hfix hr hs1
+    obtain ⟨s1', he1', hp1'⟩ := specStep_perm c.window (abs c) s op hp s1 he1
+    have hinv : Inv (stepH c op) := inv_run c [op] h
+    have hv : (stepH c op).v.fixDefrag = true := by rw [stepH_v]; exact hfix
+    obtain ⟨s2, he2, hp2⟩ := ih (stepH c op) s1' (hp1.trans hp1') hinv hv (stepH_rowsFresh c op hr) hs2
+    rw [stepH_window] at he2
+    exact ⟨s2, by simp only [runSpec, he1', Option.bind_some]; exact he2, hp2⟩
+
+theorem abs_init (v : Variant) (w : Option Int) (maxSeq capacity maxBatch cachePad batchPad : Nat) (hs : Bool) :
+    abs (Causal.init v w maxSeq capacity maxBatch cachePad batchPad hs) = [] := by
+  unfold abs
+  apply filterMap_all_none
+  intro x hx
+  simp only [Causal.init, List.zip_replicate] at hx
+  rw [List.eq_of_mem_replicate hx]
+  rfl
+
+/-- **The cache refines the location-free specification**: from any initial configuration (repaired
+    coalescing), along every history of accepted operations — forward passes with any placement, cell reuse,
+    window eviction and defragmentation, prefix copies, removals with position shift, SetCausal, reserve
+    passes — the entries the cache holds (owners, position, stored data, applied shift) are exactly those the
+    specification, which knows nothing about locations, computes from the empty state. -/
+theorem refines_all_histories (v : Variant) (hv : v.fixDefrag = true) (w : Option Int)
+    (maxSeq capacity maxBatch cachePad batchPad : Nat) (hs : Bool) (ops : List HOp)
+    (hsz : (Causal.init v w maxSeq capacity maxBatch cachePad batchPad hs).cells.length ≤ maxInt)
+    (hok : AllSucceed (Causal.init v w maxSeq capacity maxBatch cachePad batchPad hs) ops) :
+    ∃ s', runSpec w [] ops = some s' ∧
+      (abs (ops.foldl stepH (Causal.init v w maxSeq capacity maxBatch cachePad batchPad hs))).Perm s' := by
+  have := refines_run (Causal.init v w maxSeq capacity maxBatch cachePad batchPad hs) ops []
+    (by rw [abs_init]) (inv_init v w maxSeq capacity maxBatch cachePad batchPad hs hsz) hv
+    (rowsFresh_init v w maxSeq capacity maxBatch cachePad batchPad hs) hok
+  exact this
+
+instance (c : Cache) (op : HOp) : Decidable (Succeeds c op) := by
+  cases op <;> unfold Succeeds <;> infer_instance
+
+instance decAllSucceed : (c : Cache) → (ops : List HOp) → Decidable (AllSucceed c ops)
+  | _, [] => isTrue trivial
+  | c, op :: ops =>
+    have := decAllSucceed (stepH c op) ops
+    by unfold AllSucceed; infer_instance
+
+/-- non-vacuity of the refinement theorems: a history with a shifting middle removal, a forward pass that
+    is only accepted after defragmenting, a fork, SetCausal and a reserve pass is accepted step by step, and
+    the specification's run gives the 5 entries the cache then holds -/
+example :
+    let c0 := Causal.init { fixDefrag := true } none 1 5 5 1 1 true
+    let ops := [HOp.fwd [⟨0, 0⟩, ⟨0, 1⟩, ⟨0, 2⟩, ⟨0, 3⟩, ⟨0, 4⟩] [1, 2, 3, 4, 5], .rm 0 0 2, .rm 0 2 maxInt32,
+      .fwd [⟨0, 2⟩, ⟨0, 3⟩, ⟨0, 4⟩] [6, 7, 8], .sc [1], .cp 0 1 2, .rsv [⟨1, 2⟩]]
+    AllSucceed c0 ops ∧ ((runSpec none [] ops).map List.length) = some 5 ∧
+    (abs (ops.foldl stepH c0)).length = 5 := by decide
 
 /-! ### a full cache is reported as an error only when it is full -/
 
@@ -1406,7 +1729,7 @@ def f14pre (v : Variant) : Cache :=
   (Causal.remove (Causal.remove c1 0 0 2).1 0 2 maxInt32).1
 
 example :
-    (f14pre { fixDefrag := true }).hasLayers = true ∧ (f14pre { fixDefrag := true }).v.fixDefrag = true ∧
+    (f14pre { fixDefrag := true }).v.fixDefrag = true ∧
     findStart (f14pre { fixDefrag := true }).cells 3 = none ∧
     (startForward (f14pre { fixDefrag := true }) [⟨0, 1⟩, ⟨0, 2⟩, ⟨0, 3⟩]).2 = .ok ∧
     (defrag (f14pre { fixDefrag := true })).cells ≠ (f14pre { fixDefrag := true }).cells := by decide
